@@ -574,3 +574,107 @@ func boundedLoopIdiom(loop *ast.ForStmt, info *types.Info) string {
 	}
 	return ""
 }
+
+// R06g: the value methods of package data do not call each other in a cycle. Such a cycle (Int.Equals handing
+// a Float to Float.Equals, which hands the Int back) has nothing that gets smaller: it recurses until the
+// goroutine stack overflows, which no recover can catch. Containers recurse into their elements through the
+// Value interface (a dynamic call on a smaller value), which is not a static cycle and is not reported.
+func ruleR06g(c *Ctx) {
+	c.buildSSA()
+	pkg := c.SSA["data"]
+	if pkg == nil {
+		c.fatalf("anchor: package data not loaded")
+		return
+	}
+	fns := allPkgFunctions(c, pkg)
+	edges := map[*ssa.Function][]*ssa.Function{}
+	inPkg := map[*ssa.Function]bool{}
+	for _, f := range fns {
+		inPkg[f] = true
+	}
+	for _, f := range fns {
+		for _, b := range f.Blocks {
+			for _, in := range b.Instrs {
+				if ci, ok := in.(ssa.CallInstruction); ok {
+					if sc := ci.Common().StaticCallee(); sc != nil && inPkg[sc] {
+						edges[f] = append(edges[f], sc)
+					}
+				}
+			}
+		}
+	}
+	// cycles by DFS
+	state := map[*ssa.Function]int{}
+	var stack []*ssa.Function
+	reported := map[string]bool{}
+	var dfs func(f *ssa.Function)
+	dfs = func(f *ssa.Function) {
+		state[f] = 1
+		stack = append(stack, f)
+		for _, g := range edges[f] {
+			switch state[g] {
+			case 0:
+				dfs(g)
+			case 1:
+				// cycle: from g's position in the stack to the top
+				var names []string
+				started := false
+				for _, s := range stack {
+					if s == g {
+						started = true
+					}
+					if started {
+						names = append(names, strings.ReplaceAll(s.String(), modPath+"/", ""))
+					}
+				}
+				// conversion and container code recurses on the parts of a value (bounded by the value); a cycle made
+				// only of methods of scalar value types has nothing that gets smaller
+				scalarOnly := true
+				started = false
+				for _, s := range stack {
+					if s == g {
+						started = true
+					}
+					if !started {
+						continue
+					}
+					recv := s.Signature.Recv()
+					if recv == nil {
+						scalarOnly = false
+						continue
+					}
+					switch u := recv.Type().Underlying().(type) {
+					case *types.Basic:
+					case *types.Struct:
+						if u.NumFields() != 0 {
+							scalarOnly = false
+						}
+					default:
+						scalarOnly = false
+					}
+				}
+				if !scalarOnly {
+					continue
+				}
+				sort.Strings(names)
+				key := strings.Join(names, " <-> ")
+				if !reported[key] {
+					reported[key] = true
+					c.bad("R06g", "data static-call-cycle "+key, g.Pos(), "these functions of package data call each other in a cycle through static calls with nothing that decreases: for some operands (an Int compared with a fractional Float) the recursion never ends and the process dies of stack overflow")
+				}
+			}
+		}
+		stack = stack[:len(stack)-1]
+		state[f] = 2
+	}
+	sort.Slice(fns, func(i, j int) bool { return fns[i].String() < fns[j].String() })
+	for _, f := range fns {
+		if state[f] == 0 {
+			dfs(f)
+		}
+	}
+	if len(reported) == 0 {
+		c.ok("R06g", "data no-static-call-cycle", pkg.Pkg.Scope().Pos(), fmt.Sprintf("no cycle of static calls among the methods of the scalar value types (%d functions of package data examined)", len(fns)))
+	}
+	c.floor("R06g", "functions of package data", 25, len(fns))
+}
